@@ -1093,12 +1093,12 @@ def world_kinds(thorough):
              ("SubFS^1/MountFS", lambda env: MemWorld(env, 0, mount=True), thorough),
              ("ZipFS", lambda env: ArchiveWorld(env, "zip", 0), True),
              ("SubFS^1/TarFS", lambda env: ArchiveWorld(env, "tar", 1), thorough),
-             ("TempFS", lambda env: OSWorld(env, "tempfs", 0), thorough)]
+             ("TempFS", lambda env: OSWorld(env, "tempfs", 0), False)]
     if thorough:
-        kinds += [("SubFS^3/mem", lambda env: MemWorld(env, 3), True), ("SubFS^2/OSFS", lambda env: OSWorld(env, "subfs", 2), True),
-                  ("SubFS^2/MountFS", lambda env: MemWorld(env, 1, mount=True), True),
-                  ("SubFS^1/ZipFS", lambda env: ArchiveWorld(env, "zip", 1), True),
-                  ("TarFS", lambda env: ArchiveWorld(env, "tar", 0), True)]
+        kinds += [("SubFS^3/mem", lambda env: MemWorld(env, 3), False), ("SubFS^2/OSFS", lambda env: OSWorld(env, "subfs", 2), False),
+                  ("SubFS^2/MountFS", lambda env: MemWorld(env, 1, mount=True), False),
+                  ("SubFS^1/ZipFS", lambda env: ArchiveWorld(env, "zip", 1), False),
+                  ("TarFS", lambda env: ArchiveWorld(env, "tar", 0), False)]
     return kinds
 
 
@@ -1157,7 +1157,7 @@ def run_returned(rnd, thorough, seed):
                 gt0 = dict(gt0)
                 gt0["/".join(D)] = None
             deep = None
-            if deep_ok and (rnd.random() < (0.2 if thorough else 0.015)):
+            if deep_ok and (rnd.random() < (0.02 if thorough else 0.015)):
                 deep = (methods, PROBE_PATHS if thorough else PROBE_PATHS[::2])
                 cov["objects_deep"] += 1
             b, n, last = check_returned(w, X, D, dict(fs=kind, api=label, spelling_class=cls, path=arg, via=via),
@@ -1181,7 +1181,7 @@ def run_returned(rnd, thorough, seed):
                     if chained:
                         for t1 in ((), ("data",)):
                             sp = spellings(t1)
-                            stems += [(t1, x) for x in (sp[::3] if thorough else [sp[rnd.randrange(len(sp))]])]
+                            stems += [(t1, x) for x in rnd.sample(sp, 2 if thorough else 1)]
                     def stem(ww, t1, s1):
                         F, box, pre = ww.fs, tuple(ww.box), tuple(ww.tprefix)
                         if s1 is not None:
@@ -1440,7 +1440,7 @@ def run_ctor_state(rnd, thorough, seed):
             w.state("B", cwd_rel)
             ctx["denoted_at_construction"] = "/" + "/".join(D)
             deep = None
-            if thorough or rnd.random() < 0.06:
+            if rnd.random() < (0.2 if thorough else 0.06):
                 deep = (methods, PROBE_PATHS if thorough else PROBE_PATHS[::2])
                 cov["deep_batteries"] += 1
             c2 = dict(ctx, fs=label, api="constructor, then chdir / HOME / variables changed")
